@@ -217,7 +217,7 @@ LBlock ==
 LRet ==
   /\ pc \in {"ret_ok", "ret_to", "ret_err"}
   /\ Ret(CASE pc = "ret_ok" -> "ok" [] pc = "ret_to" -> "timedout" [] OTHER -> "oserr",
-         pOpen["out"], outvec, pOpen["err"], errvec)
+         pOpen["out"], outvec, pOpen["err"], errvec, TRUE)
   /\ pc' = "idle" /\ ncalls' = ncalls + 1 /\ blocked' = FALSE
   /\ UNCHANGED <<outRef, errRef, outvec, errvec, ready, expiredSeen, pollT0, pollTmo, pollOver, pollDl, hadTl>>
 
